@@ -80,6 +80,7 @@ class ItemSpec:
         self.spec = None      # (text, line)
         self.ats = []         # (side, nth, anchor, text, line)
         self.dropfields = []
+        self.refself = False
         self.raw = None       # (text, line) for @raw blocks
 
 
@@ -128,6 +129,8 @@ def parse_overlay(path):
                     cur.attrs.append(arg)
                 elif d == 'dropfield':
                     cur.dropfields += arg.split()
+                elif d == 'refself':
+                    cur.refself = True
                 elif d == 'raw':
                     cur = ItemSpec(path, n)
                     cur.file, cur.module = curfile, curmod
@@ -322,6 +325,16 @@ def splice_item(asm, spec, probe=False):
                 tend -= 1
             ins.append((tstart, order, '(%s: ' % spec.ret, spec.line, spec.props, 'inline')); order += 1
             ins.append((tend, order, ')', spec.line, spec.props, 'inline')); order += 1
+        if spec.refself:
+            # Verus does not support a `mut self` receiver: insert `&` so that it reads
+            # `&mut self`.  The body is untouched (field access and method calls through
+            # `self` mean the same); dropping `self` at return is not modelled.  Reported.
+            sig = msk_item[:body_rel]
+            mm = re.search(r'\(\s*(mut\s+self)\b', sig)
+            if not mm:
+                raise LostAnchor('%s: @refself but no `mut self` receiver' % spec.selector)
+            ins.append((mm.start(1), order, '&', spec.line, spec.props, 'inline')); order += 1
+            asm.dropped.append((spec.file, spec.selector, 'TRANSFORM mut-self-receiver-to-&mut-self', 1))
         if spec.spec:
             text, ln = spec.spec
             # put the clause block on its own lines
